@@ -24,7 +24,8 @@ LINTS = (("shared mutable fill", L.shared_mutable_fill), ("stale loop carry", L.
          ("loop-scoped value read in a later loop", L.loop_scoped_value_in_later_loop), ("per-call memo keyed too narrowly", L.local_memo_key),
          ("ordered result from set iteration order", L.set_order_dependence),
          ("deepcopy with a memo shared between loop iterations", L.deepcopy_shared_memo),
-         ("float quotient truncated to an integer", L.truncated_quotient))
+         ("float quotient truncated to an integer", L.truncated_quotient),
+         ("absolute tolerance with an implicit relative one", L.implicit_relative_tolerance))
 
 _CONTROL = '''
 def a(keys):
@@ -76,6 +77,10 @@ def k2(items):
 
 def q(T, dt):
     return int(T / dt), int(round(T / dt)), int(T // dt)
+
+def w(ws, tol):
+    import numpy as np
+    return np.allclose(ws, 1.0, atol=tol), np.allclose(ws, 1.0, rtol=0.0, atol=tol)
 
 def g(nodes):
     seen = {}
